@@ -654,6 +654,21 @@ func decide(p *Property, tier string, seed int64, cases []Case, results map[int]
 	}
 	dir := verifDir()
 	os.MkdirAll(filepath.Join(dir, "evidence", "replays"), 0o755)
+	type slow struct {
+		Idx int         `json:"idx"`
+		Ms  int64       `json:"wall_ms"`
+		P   interface{} `json:"p"`
+	}
+	var slowest []slow
+	for _, c := range cases {
+		if r, ok := results[c.Idx]; ok {
+			slowest = append(slowest, slow{c.Idx, r.v.WallMs, c.P})
+		}
+	}
+	sort.Slice(slowest, func(i, j int) bool { return slowest[i].Ms > slowest[j].Ms })
+	if len(slowest) > 5 {
+		slowest = slowest[:5]
+	}
 
 	exit := 0
 	var outLines []string
@@ -724,6 +739,7 @@ func decide(p *Property, tier string, seed int64, cases []Case, results map[int]
 		"inconclusive_cases":  inconcList,
 		"race_build":          race,
 		"explanation":         p.Explain,
+		"slowest_cases":       slowest,
 	}
 	if race {
 		cov["race_reports_observed"] = raceList
